@@ -165,6 +165,31 @@ fn check_tok_case(c: &TokCase, rng: &mut Rng, st: &mut Stats, all_partitions_max
     }
 }
 
+/// Scaled-up inputs: too long for every split point, so: 1-character chunks, fixed-size blocks,
+/// a handful of random partitions and 24 single cuts.
+fn check_tok_case_big(c: &TokCase, rng: &mut Rng, st: &mut Stats) {
+    let n = c.input.chars().count();
+    let Ok(reference) = tok_reference(c) else {
+        st.count("reference_panicked");
+        return;
+    };
+    st.case(Some(hash_str(&format!("{:?}", c))));
+    let mut schedules: Vec<Vec<usize>> = vec![gen::one_char_cuts(n)];
+    for _ in 0..6 {
+        schedules.push(crate::big::big_cuts(rng, n));
+    }
+    for _ in 0..24 {
+        schedules.push(vec![rng.below(n + 1)]);
+    }
+    st.add("schedules", schedules.len() as u64);
+    for cuts in &schedules {
+        if let Some((sig, desc)) = tok_compare(c, cuts, &reference, st) {
+            report_tok(c, cuts, &sig, &desc, st);
+            break;
+        }
+    }
+}
+
 // ---------------------------------------------------------------------------------------------
 // parser level
 
@@ -469,6 +494,12 @@ pub fn run(args: &Args) -> (Meta, Stats) {
         let mut k = 0u64;
         while !expired(deadline_tok) {
             k += 1;
+            if k % 150 == 0 {
+                let c = TokCase { input: crate::big::big_html(&mut rng), start: StartState::Data, last_tag: None, exact_errors: rng.chance(1, 4), discard_bom: true, policy: Policy::TreeBuilderLike };
+                check_tok_case_big(&c, &mut rng, st);
+                st.count("scaled_up_cases");
+                continue;
+            }
             let input = gen::tok_soup(&mut rng, 8);
             if input.chars().count() > 160 {
                 continue;
@@ -538,6 +569,7 @@ pub fn run(args: &Args) -> (Meta, Stats) {
         ("enumerated_cases".into(), enumerated.len() as u64),
         ("tree_cases".into(), 200),
         ("injections_performed".into(), 50),
+        ("scaled_up_cases".into(), 40),
         ("hidden_states_at_suspension".into(), 60),
     ];
     (m, st)
